@@ -2,12 +2,14 @@ module github.com/dcaiafa/lox/verif
 
 go 1.23.0
 
-require github.com/dcaiafa/lox v0.0.0
+require (
+	github.com/dcaiafa/lox v0.0.0
+	github.com/dcaiafa/loxlex v0.5.0
+)
 
 require (
 	github.com/CloudyKit/fastprinter v0.0.0-20200109182630-33d98a066a53 // indirect
 	github.com/CloudyKit/jet/v6 v6.3.1 // indirect
-	github.com/dcaiafa/loxlex v0.5.0 // indirect
 	golang.org/x/mod v0.24.0 // indirect
 	golang.org/x/sync v0.14.0 // indirect
 	golang.org/x/tools v0.33.0 // indirect
